@@ -1272,18 +1272,26 @@ func (r *Raft) sendRequestVoteToPeers() {
 	// Send RequestVote RPCs to all voting members of the cluster.
 	votesRecieved := 1
 	isPrevote := r.state == PreCandidate
+	term := r.currentTerm
 	for id, address := range r.configuration.Members {
 		if id != r.id && r.isVoter(id) {
-			go r.sendRequestVote(id, address, &votesRecieved, isPrevote)
+			go r.sendRequestVote(id, address, &votesRecieved, isPrevote, term)
 		}
 	}
 }
 
 // sendRequestVote sends a RequestVote RPC to the node with the provided
-// ID and address if it is a voting member.
-func (r *Raft) sendRequestVote(id string, address string, votes *int, prevote bool) {
+// ID and address if it is a voting member. The provided term is the term
+// in which the election that this request is a part of was started.
+func (r *Raft) sendRequestVote(id string, address string, votes *int, prevote bool, term uint64) {
 	r.mu.Lock()
 	defer r.mu.Unlock()
+
+	// The election that this request is a part of is over if the term has changed.
+	// A vote granted in a later term must not be added to the votes of that election.
+	if r.currentTerm != term {
+		return
+	}
 
 	// Do not send requests to non-voting members and only send
 	// requests if this node is a voting member of the cluster.
